@@ -64,6 +64,14 @@ CLAIMED = {
          "stateless model checking on a virtual clock: persistent-failure scripts x entry points; attempt times stamped by the simulated servers against the literal back-off table; early timer firing as counted deviations; step horizon = hot loop",
          "Seven persistent failures (retry-later forever, server passes the probe but drops every request, region never online, meta retry-later, meta dropping requests, ZooKeeper errors, dial refused) plus two mixed two-server batches, through single get / batch of one / batch of two, observed for 10 virtual minutes. Under the default clock the retry-later loop must equal 16 ms doubling to 8.192 s then +5 s to 33.192 s; every other persisting loop (user call, probe, lookup, ZooKeeper) must be >= the table with at most two immediate retries for connection-level failures; with early timer firing only the lower bound applies. The wait function is stepped 30 times against the table.",
          "Virtual clock; tier L; establishment/lookup loops are judged where they are the persisting loop.", "DESIGN.md §4 C17"),
+ "C19": ("model_checking",
+         "stateless model checking of Close() racing with requests, lookups, establishment and retries: Close position x environment x schedules up to a deviation bound; quiescence observer; plus the real region client's Dial racing Close on tier R",
+         "Close() (once or twice) fired immediately or after the k-th server-side attempt (k=0..6) against 1-2 concurrent requests on a cold or partly warm cache, in six environments (healthy, slow servers, retry-later, ZooKeeper errors, meta retry-later, probe refused), two layouts, all schedules with <=1 (thorough 2-3) deviations; and Dial vs Close vs a queued call on the real region client with <=2 deviations. Oracle: calls return nil or client-closed within one back-off step of Close, later calls are refused at once, every dialled connection is closed, nothing (ZooKeeper lookup, dial, request) starts once all calls have returned, no client thread is left after 2 h of virtual time.",
+         "Tier L for the top-level client (simulated region clients model the repaired real one; the real one is checked on tier R).", "DESIGN.md §4 C19"),
+ "C20": ("model_checking",
+         "stateless model checking of the connection cache under concurrent first use: regions x callers x all schedules with <=2 deviations; dial and open-connection counters",
+         "2-4 regions on one address first used by as many (or one more) concurrent callers from a cold cache, optionally followed by a later discovery on the same server or by a connection reset and a second burst. Oracle: one dial per connection generation, never two connections open to one address, all requests succeed.",
+         "Tier L.", "DESIGN.md §4 C20"),
  "C08": ("model_checking",
          "explicit-state breadth-first search over the real location cache, every transition executed on the implementation and judged against an interval model",
          "All 1683 reachable states of a universe of every interval over 3 boundary points x 2 ids (plus a prefix-named table) with put/del of every region as transitions (87k per configuration), repeated with 0..130 filler regions to move entries across B-tree pages; invariant (no two cached regions of a table intersect) in every state, transition relation (evict-all-older / unchanged) on every edge, dead marks, and a differential rebuild from the canonical state.",
@@ -74,7 +82,7 @@ CLAIMED = {
          "Every ordered pair of ~2.6k (quick) / ~10k (thorough) well-formed region names and every triple of a 160-name subset is compared with the real comparator and with a component-wise (table,start,id) oracle; search keys 'table,key,:' are compared against every name. Exhaustive within the stated alphabet and key length, which is where comparator mistakes live (bytes around ',' and unequal lengths).",
          "Scope bound: start keys <=2/<=3 bytes over {00,'+',',','-','a',ff}; well-formed names only.", "DESIGN.md §4 C16"),
 }
-FIX_COMMITS = ["0da2129", "62252c5", "effb93f", "0cef440", "27c75df", "f573f90", "137cea9", "fa68402", "74e6ab5", "ffdcfd8", "dc24a9a", "6fcb5bf", "0fa34d5", "6c1c1ad", "7f1a30c"]
+FIX_COMMITS = ["0da2129", "62252c5", "effb93f", "0cef440", "27c75df", "f573f90", "137cea9", "fa68402", "74e6ab5", "ffdcfd8", "dc24a9a", "6fcb5bf", "0fa34d5", "6c1c1ad", "7f1a30c", "182fbfa", "4bf0000"]
 NA_REASONS = {}
 PENDING_REASON = "check under construction in this revision (planned: see DESIGN.md §4); not claimed until its check is committed"
 
